@@ -229,7 +229,7 @@ def run(ctx):
             try:
                 with core.time_limit(5):
                     got = str(it.interpret(src, "c06"))
-            except Exception as e:   # noqa
+            except (Exception, core.Timeout) as e:   # noqa
                 got = "EXC " + type(e).__name__ + ": " + str(e)[:80]
             progs += 1
             # remove(m_, b) then a in m_ : c may equal a, then removal of a leaves c's entry only if c != a
